@@ -360,6 +360,33 @@ Section Model.
 
   Definition is_nt (ty : cty) : bool := match ckind ty with Some CPAdtNewType => true | _ => false end.
 
+  (* ---- repairs that may or may not be in the tree (the tables say which) ----
+     arc-field-default: `(l, Arc(inner)) => Arc::new(lit_as_rvalue(l, inner))`, const flag false, as the LAST arm of
+     lit_into_ty, and `(_, Arc(inner)) => Arc::new(ident_into_ty(.., inner))` as the last arm of ident_into_ty *)
+  Definition arc_ok : bool := Nat.ltb (select lit_into_ty_arms LPInt CPArc) (length lit_into_ty_arms).
+  Definition is_arc_c (ty : cty) : bool := match ty with CArc _ => true | _ => false end.
+  Fixpoint unarc_c (ty : cty) : cty := match ty with CArc x => unarc_c x | _ => ty end.
+  (* the end of the chain of NewType AND Arc layers *)
+  Fixpoint peela (fuel : nat) (ty : cty) {struct fuel} : cty :=
+    let ty0 := unarc_c ty in
+    match fuel with
+    | O => ty0
+    | Datatypes.S f =>
+        match ty0 with
+        | CAdt n => match item n with Some (INewType t) => peela f (item_cty t) | _ => ty0 end
+        | _ => ty0
+        end
+    end.
+  (* double-sign-run: `-+x` is parsed as -(x) *)
+  Definition sign_norm (s : list byte) : list byte :=
+    match s with
+    | a :: b :: r => if byte_eqb a x2d && byte_eqb b x2b then a :: r else s
+    | _ => s
+    end.
+  Definition float_text (s : list byte) : list byte := if double_sign_run_ok then sign_norm s else s.
+  (* container-const-reference: CodegenTy of a const of list / set / map type *)
+  Definition is_container_c (ty : cty) : bool := match ty with CArray _ | CLazyStaticRef _ => true | _ => false end.
+
   (* does [it] occur in the typedef chain of [ty] (ty, its target, the target's target, ..)? *)
   Fixpoint in_chain (fuel : nat) (it ty : cty) : bool :=
     cty_eqb it ty ||
@@ -367,18 +394,27 @@ Section Model.
     | Datatypes.S f, CAdt n => match item n with Some (INewType a) => in_chain f it (item_cty a) | _ => false end
     | _, _ => false
     end.
-
-  (* ident_into_ty: [v] is the value the path denotes.  Rust tests `ident_ty == target`, then the NewType arm recurses at
-     the aliased type (wrapping the result in the newtype: same value, same flag); so: the path itself as soon as some
-     level of the target's typedef chain IS the path's type, else the conversion arms at the end of the chain. *)
-  Definition ident_into_ty (ident_ty target : cty) (v : lres gval) : lres (gval * bool) :=
-    if in_chain pfuel ident_ty target then (let+ x := v in LOk (x, true))
+  (* the same through Arc layers: Some b = it occurs, b = an Arc layer was passed before *)
+  Fixpoint in_chain_a (fuel : nat) (it ty : cty) {struct fuel} : option bool :=
+    if cty_eqb it ty then Some false
     else
-      let fin := peel pfuel target in
+      match fuel with
+      | O => None
+      | Datatypes.S f =>
+          match ty with
+          | CAdt n => match item n with Some (INewType a) => in_chain_a f it (item_cty a) | _ => None end
+          | CArc x => match in_chain_a f it x with Some _ => Some true | None => None end
+          | _ => None
+          end
+      end.
+
+  (* the conversion arms of ident_into_ty at the end [fin] of the target's chain; [force]: the result is wrapped in
+     Arc::new, which is never const *)
+  Definition ident_conv (fin : cty) (force : bool) (ident_ty : cty) (v : lres gval) : lres (gval * bool) :=
       match ckind ident_ty, ckind fin with
       | Some ik, Some tk =>
           let i := select2 ident_into_ty_arms ik tk in
-          let fl := flag_of2 ident_into_ty_arms i in
+          let fl := fun dyn => if force then false else flag_of2 ident_into_ty_arms i dyn in
           match i with
           | 0%nat => LErr EFuel                          (* still a newtype at the end of the chain: cyclic typedefs *)
           | 1%nat | 2%nat =>                             (* (Str, FastStr): from_static_str(path); (Str, String): path.to_string() *)
@@ -396,14 +432,30 @@ Section Model.
                   end
               | _ => LErr ENoValue                       (* a union variant / a union-typed const has no .inner() *)
               end
-          | _ => LPanic PInvalidConvert
+          | _ => LPanic PInvalidConvert                  (* incl. the Arc arm's index when the chain still ends at an Arc *)
           end
       | _, _ => LPanic PUnwrap
       end.
 
+  (* ident_into_ty: [v] is the value the path denotes.  Rust tests `ident_ty == target`, then the NewType arm recurses at
+     the aliased type (wrapping the result in the newtype: same value, same flag); so: the path itself as soon as some
+     level of the target's typedef chain IS the path's type, else the conversion arms at the end of the chain. *)
+  Definition ident_into_ty0 (ident_ty target : cty) (v : lres gval) : lres (gval * bool) :=
+    if in_chain pfuel ident_ty target then (let+ x := v in LOk (x, true))
+    else ident_conv (peel pfuel target) false ident_ty v.
+  (* with the Arc arm: the same walk through NewType and Arc layers; whatever was found below an Arc is not const *)
+  Definition ident_into_ty (ident_ty target : cty) (v : lres gval) : lres (gval * bool) :=
+    if arc_ok && is_arc_c (peel pfuel target) then
+      match in_chain_a (pfuel + pfuel) ident_ty target with
+      | Some b => let+ x := v in LOk (x, negb b)
+      | None => ident_conv (peela (pfuel + pfuel) target) true ident_ty v
+      end
+    else ident_into_ty0 ident_ty target v.
+
   Section Lit.
     Variable cval : nat -> lres gval.        (* the value const item c denotes (def_lit) *)
     Variable dflt : rty -> lres gval.        (* Default::default() of the emitted type of a field of this rir type *)
+    Variable cinl : nat -> cty -> lres (gval * bool).   (* lit_as_rvalue(literal of const item c, target type) *)
 
     Definition const_flag (l : list (gval * bool)) : bool := forallb snd l.
 
@@ -435,17 +487,22 @@ Section Model.
           end
       | LConst c =>
           match ident_ty_of_const c with
-          | Some it => ident_into_ty it ty (cval c)
+          | Some it =>
+              (* container-const-reference: a const of list / set / map type at another type is lowered from its literal *)
+              if const_inline_present && is_container_c it && negb (cty_eqb it ty) then cinl c ty
+              else ident_into_ty it ty (cval c)
           | None => LPanic PUnwrap
           end
       | _ =>
-          let en := top || is_nt ty in
-          let ty' := peel pfuel ty in
+          (* [fa]: the typedef chain of ty passes through the Arc arm (lit_as_rvalue at the wrapped type; never const) *)
+          let fa := arc_ok && is_arc_c (peel pfuel ty) in
+          let en := if fa then true else top || is_nt ty in
+          let ty' := if fa then peela (pfuel + pfuel) ty else peel pfuel ty in
           match ckind ty' with
           | None => LPanic PUnwrap
           | Some ck =>
               let r := rv_index en (lkind l) ck in
-              let rfl := flag_of lit_as_rvalue_arms r false in
+              let rfl := if fa then false else flag_of lit_as_rvalue_arms r false in
               match r with
               | 0%nat =>                                    (* (Map, LazyStaticRef(map)): mk_map *)
                   match l, ty' with
@@ -496,7 +553,7 @@ Section Model.
                   end
               | _ =>                                        (* fall-through: lit_into_ty's arms *)
               let i := select lit_into_ty_arms (lkind l) ck in
-              let fl := flag_of lit_into_ty_arms i in
+              let fl := fun dyn => if fa then false else flag_of lit_into_ty_arms i dyn in
               match i with
               | 1%nat | 2%nat | 3%nat | 23%nat =>           (* (String, Str | String | FastStr | Bytes) *)
                   match l with
@@ -531,7 +588,7 @@ Section Model.
                   end
               | 12%nat | 13%nat =>                          (* (Float, F64 | OrderedF64): f64_literal(parse) -- an infinity is f64::INFINITY *)
                   match l with
-                  | LFloat s => match parse_f64 s with Some b => LOk (GDouble b, fl true) | None => LPanic PParseFloat end
+                  | LFloat s => match parse_f64 (float_text s) with Some b => LOk (GDouble b, fl true) | None => LPanic PParseFloat end
                   | _ => LPanic PUnexpectedLiteral
                   end
               | 14%nat => LErr EFuel                        (* still a newtype after peel: cyclic typedefs *)
@@ -673,10 +730,11 @@ Section Model.
     | Datatypes.S f =>
         let cval := fun c => ev f (QConst c) in
         let dflt := fun t => ev f (QDefault t) in
+        let cinl := evi f in
         match q with
         | QConst c =>
             match nth_error (ls_consts S) c, ident_ty_of_const c with
-            | Some (_, l), Some ty => def_lit cval dflt l ty          (* Codegen::write_const *)
+            | Some (_, l), Some ty => def_lit cval dflt cinl l ty     (* Codegen::write_const *)
             | _, _ => LPanic PUnwrap
             end
         | QDefault t =>
@@ -702,7 +760,7 @@ Section Model.
                          | fd :: r =>
                              let+ here :=
                                match lf_dflt fd with
-                               | Some l => let+ x := lit_as_rvalue cval dflt l (item_cty (lf_ty fd)) in LOk (Some (fst x))
+                               | Some l => let+ x := lit_as_rvalue cval dflt cinl l (item_cty (lf_ty fd)) in LOk (Some (fst x))
                                | None =>
                                    match lf_req fd with
                                    | Optional => LOk None
@@ -721,6 +779,16 @@ Section Model.
                 end
             end
         end
+    end
+  (* the literal of const item c lowered by lit_as_rvalue at [ty] (container-const-reference) *)
+  with evi (fuel : nat) (c : nat) (ty : cty) {struct fuel} : lres (gval * bool) :=
+    match fuel with
+    | O => LErr EFuel
+    | Datatypes.S f =>
+        match nth_error (ls_consts S) c with
+        | Some (_, l) => lit_as_rvalue (fun c => ev f (QConst c)) (fun t => ev f (QDefault t)) (evi f) l ty
+        | None => LPanic PUnwrap
+        end
     end.
 
   (* fuel: every unfolding step enters a const, a typedef, a union variant or a by-value struct field *)
@@ -728,7 +796,7 @@ Section Model.
 
   (* Context::default_val(f) = lit_as_rvalue(default, codegen_item_ty(f.ty)): value and const flag *)
   Definition default_val_lit_n (fuel : nat) (t : rty) (l : lit) : lres (gval * bool) :=
-    lit_as_rvalue (fun c => ev fuel (QConst c)) (fun t => ev fuel (QDefault t)) l (item_cty t).
+    lit_as_rvalue (fun c => ev fuel (QConst c)) (fun t => ev fuel (QDefault t)) (evi fuel) l (item_cty t).
   Definition default_val_lit : rty -> lit -> lres (gval * bool) := default_val_lit_n efuel.
 
   Definition const_value (c : nat) : lres gval := ev (Datatypes.S efuel) (QConst c).
